@@ -33,8 +33,6 @@ func main() {
 	conc := flag.Int("conc", 32, "cache histories run concurrently")
 	nnd := flag.Int("ndp", 250, "number of random neighbour discovery packet cases (after the lattice); 0 = no NDP cases")
 	flag.BoolVar(&ndpSN, "ndpsn", false, "also generate inputs of finding C12-ndp-solicited-node-not-joined")
-	flag.BoolVar(&ndpMC, "ndpmc", false, "also generate inputs of finding C12-ndp-multicast-target-answered")
-	flag.BoolVar(&ndpOpt, "ndpopt", false, "also generate inputs of finding C12-ndp-lladdr-option-ignored")
 	nsc := flag.Int("scen", 0, "rounds of real-constant UDP/TCP scenarios (19 scenarios, about 4 s per round)")
 	flag.Parse()
 	out = bufio.NewWriterSize(os.Stdout, 1<<20)
